@@ -1,8 +1,129 @@
 import GraafVerif.Driver.Common
-/-! Driver handlers for property C10 (ops the harness module `ops/c10.rs` emits). -/
-namespace GraafVerif.Driver.H10
-open GraafVerif GraafVerif.Driver
+import GraafVerif.Model.Johnson
+import GraafVerif.Spec.Johnson
+/-!
+Driver handler for C10: `johnson_circuits <family> [am verts arcs] => [[circuit] …] | panic`.
 
-def handlers : List (String × Handler) := []
+* correspondence: the model's `circuits` output, verbatim (the emission order is deterministic);
+* property oracle on the IMPLEMENTATION's output: permutation-equality with the verified naive
+  enumerator `allCircuits` (`Proof/JohnsonSpec.lean`: `allCircuits_spec`, `allCircuits_nodup`),
+  reported as `spurious` (a returned list is not a canonical elementary circuit — decided by the
+  defining predicate `isCanonB`, independently of the enumerator), `duplicate`, or `missing`.
+
+Only contiguous descriptions (vertex set `0..n`, arcs in range, no loops) are in scope.
+-/
+namespace GraafVerif.Driver.H10
+open GraafVerif GraafVerif.Driver GraafVerif.Johnson
+
+/-- Executable form of `IsCanonicalElemCircuit` (the property's defining predicate). -/
+def isCanonB (g : Graph) (c : List Nat) : Bool :=
+  match c with
+  | [] => false
+  | s :: rest =>
+    !rest.isEmpty && rest.all (fun x => s < x) &&
+    (List.range c.length).all (fun i => (List.range c.length).all (fun j => i == j || c[i]? != c[j]?)) &&
+    (List.range c.length).all (fun i =>
+      let u := (c[i]?).getD 0
+      let v := if i + 1 < c.length then (c[i+1]?).getD 0 else s
+      (g.out u).contains v)
+
+def firstDup : List (List Nat) → Option (List Nat)
+  | [] => none
+  | c :: cs => if cs.contains c then some c else firstDup cs
+
+/-! Instrumented copy of the model's `unblock`/`circuit` (same code + counters) used only for the
+tags: how often a blocked neighbour was skipped, how many vertices a cascade unblocked through
+B-lists, how many searches failed.  Its circuit list is checked against the model's. -/
+structure Stat where
+  skips : Nat := 0
+  cascades : Nat := 0
+  fails : Nat := 0
+
+def unblockI : Nat → JState × Stat → Bool → Nat → JState × Stat
+  | 0, p, _, _ => p
+  | fuel+1, (st, k), top, u =>
+    if st.isBlocked u then
+      (st.Bof u).foldl (fun p v => unblockI fuel p false v)
+        ({ st with blocked := st.blocked.filter (· != u), B := st.B.set u [] },
+         if top then k else { k with cascades := k.cascades + 1 })
+    else (st, k)
+
+def circuitI (comp : AM) (s : Nat) (ufuel : Nat) : Nat → JState × Stat → Nat → Bool × (JState × Stat)
+  | 0, p, _ => (false, p)
+  | fuel+1, (st, k), v =>
+    let st : JState := { st with stack := st.stack ++ [v], blocked := insBlocked v st.blocked }
+    let r := (comp.out v).foldl (fun (acc : Bool × (JState × Stat)) w =>
+      if w = s then (true, ({ acc.2.1 with result := acc.2.1.result ++ [acc.2.1.stack] }, acc.2.2))
+      else if !acc.2.1.isBlocked w then
+        let r := circuitI comp s ufuel fuel acc.2 w
+        (acc.1 || r.1, r.2)
+      else (acc.1, (acc.2.1, { acc.2.2 with skips := acc.2.2.skips + 1 }))) (false, (st, k))
+    let p := if r.1 then unblockI ufuel r.2 true v
+             else ({ r.2.1 with B := addToB v r.2.1.B (comp.out v) }, { r.2.2 with fails := r.2.2.fails + 1 })
+    (r.1, ({ p.1 with stack := p.1.stack.dropLast }, p.2))
+
+def circuitsI (a : AM) : List (List Nat) × Stat :=
+  let r := a.verts.foldl (fun (p : JState × Stat) s =>
+    let subgraph := a.filter (fun u => decide (s ≤ u))
+    match minByKey (tarjan subgraph) with
+    | none => p
+    | some minScc =>
+      let component := a.filter (fun u => minScc.contains u)
+      if component.order > 0 then
+        match minScc.head? with
+        | none => p
+        | some start => (circuitI component start (a.order + 1) (a.order + 1) (resetFor component.verts p.1, p.2) start).2
+      else p) (⟨[], List.replicate a.order [], [], []⟩, {})
+  (r.1.result, r.2)
+
+def countTag (pfx : String) (k : Nat) : String :=
+  pfx ++ (if k == 0 then "0" else if k < 10 then "1-9" else if k < 100 then "10-99" else "100+")
+
+def countTag2 (pfx : String) (k : Nat) : String :=
+  pfx ++ (if k == 0 then "0" else if k < 10 then "1-9" else "10+")
+
+def hCircuits : Handler := fun _ args obs =>
+  match args with
+  | [V.a fam, desc] => do
+    let d ← GDesc.parse desc
+    if d.repr != "am" then none
+    if d.verts != List.range d.order then none
+    if !d.arcs.all (fun a => a.1 < d.order && a.2 < d.order && a.1 != a.2) then none
+    let g := d.graph
+    let modelCs := circuits g
+    let model : List V := match circuitsChecked (AM.ofGraph g) with
+      | some cs => [V.l (cs.map V.ofNats)]
+      | none => [V.a "panic"]
+    let all := allCircuits g
+    let (instr, k) := circuitsI (AM.ofGraph g)
+    let propFail : Option String :=
+      match obs with
+      | [V.l cs] =>
+        match cs.mapM (V.listOf? V.nat?) with
+        | none => some "output is not a list of vertex lists"
+        | some cs =>
+          match cs.find? (fun c => !isCanonB g c) with
+          | some c => some s!"spurious {V.ofNats c} is not a canonical elementary circuit"
+          | none =>
+            match firstDup cs with
+            | some c => some s!"duplicate {V.ofNats c} returned more than once"
+            | none =>
+              match all.find? (fun c => !cs.contains c) with
+              | some c => some s!"missing {V.ofNats c} of {all.length} circuits, {cs.length} returned"
+              | none => if cs.length == all.length then none else some s!"count {cs.length} returned, {all.length} exist"
+      | _ => some s!"no circuit list returned ({all.length} circuits exist)"
+    let group := if fam == "corpus" then "corpus" else if fam.startsWith "all" || fam == "tournament5" || fam == "complete" then "exhaustive-small"
+                 else if ["trap-then-close", "cycle-chords", "theta", "flower", "bidirected", "two-blocks",
+                          "ladder", "sparse-hamiltonian"].contains fam then "blocking-families"
+                 else "shared-families"
+    let nTag := if d.order ≤ 3 then "n1-3" else if d.order ≤ 6 then "n4-6" else if d.order ≤ 9 then "n7-9" else "n10-14"
+    let tags := (if group == "corpus" then [] else ["gen:" ++ group]) ++ [ nTag, countTag "circuits:" all.length,
+                  countTag2 "blocked-skips:" k.skips, countTag2 "cascade-unblocks:" k.cascades,
+                  countTag2 "failed-searches:" k.fails ] ++
+                (if instr == modelCs then [] else ["INSTRUMENTED-COPY-DIFFERS"])
+    pure (classify obs model propFail (nt := all.length ≥ 2) tags)
+  | _ => none
+
+def handlers : List (String × Handler) := [("johnson_circuits", hCircuits)]
 
 end GraafVerif.Driver.H10
